@@ -117,6 +117,16 @@ func c14Shapes(prog, proc uint32, thorough bool) []string {
 		// every create mode over the existing name, with a size in sattr3 (the resize-on-recreate path)
 		out = append(out, "wfcreate:0,size", "wfcreate:1,size", "wfcreate:2", "wfcreate:0,nosize")
 	}
+	if prog == wire.ProgNFS && proc == wire.RENAME {
+		// the two directory slots filled with different handle kinds (the wf: shapes use one handle for both)
+		for _, from := range []string{"root", "dir", "file", "link", "stale"} {
+			for _, to := range []string{"root", "dir", "file", "link", "stale"} {
+				if from != to {
+					out = append(out, fmt.Sprintf("wfrename:%s,%s", from, to))
+				}
+			}
+		}
+	}
 	if prog == wire.ProgNFS && proc == wire.SETATTR {
 		out = append(out, "wfsetsize:file")
 		// sattrguard3: obj_ctime that cannot match (NFS3ERR_NOT_SYNC path) and, for the stale handle, the same
@@ -195,6 +205,11 @@ func (w *c14World) args(prog, proc uint32, shape string) []byte {
 		default:
 			e.U32(0).Sattr(wire.Sattr{})
 		}
+		return e.B
+	case strings.HasPrefix(shape, "wfrename:"):
+		p := strings.SplitN(shape[9:], ",", 2)
+		var e wire.Enc
+		e.FH(w.handleOf(p[0])).Str("f").FH(w.handleOf(p[1])).Str("g")
 		return e.B
 	case shape == "wfsetsize:file":
 		var e wire.Enc
@@ -435,7 +450,7 @@ func init() {
 	vRegister(&vCheck{
 		id: "C14", level: "exploration", flavour: "vtime", also: []string{"C14.conc"},
 		shards: func(string) int { return 16 },
-		rule:   "complete product: NFSv3 procedures 0..23 and MOUNT procedures 0..6 (v3 and v1), unknown programs/versions x argument shapes {well-formed for every (directory-slot, object-slot) handle kind in {root,dir,file,symlink,stale}^2 and 7 name kinds, READ and WRITE also with a 70000-byte transfer (the per-operation rate-limit branch), SETATTR also with a guard whose ctime cannot match; every byte-prefix of the well-formed encoding; every 32-bit word replaced by 0/1/0xFFFFFFFF (thorough adds 2/8/0x80000000)} x server states {normal, read-only, policy drain (policy write lock held), per-operation rate limit exhausted, connection-level rate limit exhausted (through the real connection loop), operation timeouts expired}; each case runs on a fresh instance; the reply must parse as an RFC 1831 reply echoing the xid and its body must decode exactly as the RFC 1813 result for (procedure, status) with the status a member of nfsstat3 / mountstat3. Distinct non-trivial = distinct (state, procedure, shape).",
+		rule:   "complete product: NFSv3 procedures 0..23 and MOUNT procedures 0..6 (v3 and v1), unknown programs/versions x argument shapes {well-formed for every (directory-slot, object-slot) handle kind in {root,dir,file,symlink,stale}^2 and 7 name kinds, READ and WRITE also with a 70000-byte transfer (the per-operation rate-limit branch), SETATTR also with a guard whose ctime cannot match, RENAME also with every pair of different handle kinds in its two directory slots; every byte-prefix of the well-formed encoding; every 32-bit word replaced by 0/1/0xFFFFFFFF (thorough adds 2/8/0x80000000)} x server states {normal, read-only, policy drain (policy write lock held), per-operation rate limit exhausted, connection-level rate limit exhausted (through the real connection loop), operation timeouts expired}; each case runs on a fresh instance; the reply must parse as an RFC 1831 reply echoing the xid and its body must decode exactly as the RFC 1813 result for (procedure, status) with the status a member of nfsstat3 / mountstat3. Distinct non-trivial = distinct (state, procedure, shape).",
 		assumptions: []string{"MOUNT v1 result shapes are explored (no crash, RPC envelope judged) but not judged against MOUNT v3 shapes",
 			"the wire kit is the judge of well-formedness; it was written from the RFCs, not from the repository's encoders"},
 		run: func(c *vCtx) {
